@@ -670,8 +670,12 @@ class HyperParameters:
             values = proto.values
         else:
             values = proto.values.values
-        for name, val in values.items():
-            hps.values[name] = getattr(val, val.WhichOneof("kind"))
+        # `merge` populated the defaults of the entries that are active under
+        # the default values. Keep exactly the transmitted values.
+        hps.values = {
+            name: getattr(val, val.WhichOneof("kind"))
+            for name, val in values.items()
+        }
 
         return hps
 
